@@ -204,16 +204,26 @@ func newOcspWorld(cfg OcspCfg, seed int64) *ocspWorld {
 		leaves: map[string]*pki.Leaf{}, chains: map[string][][]*x509.Certificate{}, checkers: map[string]*ocspchk.OCSPRevocationChecker{}, lists: map[string][]string{},
 		lastLife: map[string]time.Duration{}, lastNU: map[string]time.Time{}, claim: map[string]int{}}
 	w.errBase = int(((seed % 5) + 5) % 5)
+	dim := rand.New(rand.NewSource(seed*0x9E3779B9 + 5)) // concretisation dimensions are drawn independently of each other
+	issuerLikeness := dim.Intn(3)                         // 0: unlike, 1: same name, 2: same key identifier
 	w.org = origin.New()
 	w.tlsSrv = httptest.NewTLSServer(http.HandlerFunc(func(rw http.ResponseWriter, r *http.Request) { rw.WriteHeader(500) }))
 	w.stranger = pki.NewCA(pki.CAOpts{Name: "Unrelated Stranger CA", Serial: 900})
 	closed := origin.ClosedPortURL()
 	for ci, c := range []string{"cA", "cB"} {
 		io := pki.CAOpts{Name: "OCSP Issuer " + c, Serial: int64(200 + ci)}
-		if ci == 1 && (seed/3)%2 == 0 {
-			// key identifiers are free-form octets: in every other world the second issuer carries the first one's
-			// (different name, different key, same identifier, same subject and serial of the leaves)
-			io.SKI = w.issuers["cA"].Cert.SubjectKeyId
+		if ci == 1 {
+			switch issuerLikeness {
+			case 1:
+				// the two issuers carry the SAME name (a CA whose key was renewed, or CAs named alike): different keys and key
+				// identifiers. What was learnt about one says nothing about the other.
+				io.Name = "OCSP Issuer cA"
+			case 2:
+				// key identifiers are free-form octets: the second issuer carries the first one's (different name, different key,
+				// same identifier, same subject and serial of the leaves)
+				io.SKI = w.issuers["cA"].Cert.SubjectKeyId
+			}
+			// (never both: two CAs with equal name AND equal key identifier are one issuer as far as a relying party can tell)
 		}
 		iss := pki.NewCA(io)
 		w.issuers[c] = iss
@@ -378,6 +388,15 @@ func (w *ocspWorld) respond(c, cl string) (int, []byte) {
 	case "ownCertBare": // the same key, but the certificate is not embedded
 		own := &pki.CA{Key: w.leaves[c].Key, Cert: w.leaves[c].Cert}
 		return 200, mk(claim, own, own.Cert, false, serial)
+	case "ownCertAsIssuer":
+		// signed with the client's own key, its (issuer-signed) certificate embedded, but the responder id inside the signed data
+		// names the ISSUER: whoever signs chooses that field
+		own := &pki.CA{Key: w.leaves[c].Key, Cert: w.leaves[c].Cert}
+		return 200, pki.OCSPResponse(pki.OCSPOpts{Status: claim, Serial: serial, Issuer: iss.Cert, Signer: own, SignerCert: iss.Cert, EmbedCert: own.Cert,
+			ThisUpdate: time.Now().Add(-time.Minute), NextUpdate: nu})
+	case "delegNoEkuAsIssuer":
+		return 200, pki.OCSPResponse(pki.OCSPOpts{Status: claim, Serial: serial, Issuer: iss.Cert, Signer: w.delegNo[c], SignerCert: iss.Cert, EmbedCert: w.delegNo[c].Cert,
+			ThisUpdate: time.Now().Add(-time.Minute), NextUpdate: nu})
 	case "delegNoEku":
 		return 200, mk(claim, w.delegNo[c], w.delegNo[c].Cert, true, serial)
 	case "delegNoEkuBare":
